@@ -102,7 +102,7 @@ func c08Run(c *mon.Ctx, r *mon.Rand) {
 	})
 	defer tally.VerifSetHook(nil)
 	before := reportLoopGoroutines()
-	root, closer := tally.VerifNewRootScope(opts, interval, uint(r.Range(1, 4)))
+	root, closer := vNewRoot(opts, interval, uint(r.Range(0, 4)))
 	desc := map[string]interface{}{"cached": cached, "closer": []string{"none", "ok", "errors"}[closerKind], "interval_us": interval.Microseconds(), "manual_passes": manual,
 		"subscopes": nSub, "close_callers": nClosers, "slow_reporter_permille": slowProb, "slow_max_us": slowMax}
 	c.LogCase(fmt.Sprint(desc))
